@@ -60,7 +60,7 @@ def repl_oracle(script, impl):
 
 def repl_nontrivial(script, impl):
     """a scenario counts if a replica really was compared after at least 5 primary operations"""
-    ops = sum(1 for l in script if l.split()[0] in ('put', 'del', 'tx', 'burst', 'burstdel', 'bgburst'))
+    ops = sum(1 for l in script if l.split()[0] in ('put', 'putbig', 'del', 'tx', 'burst', 'burstdel', 'bgburst'))
     verdicts = [i for s, i in zip(script, impl) if s.startswith('await') and i and i.split()[0] in ('converged', 'diverged')]
     return ops >= 1 and bool(verdicts) and any(kv(v).get('primseq', 0) >= 5 for v in verdicts)
 
